@@ -69,7 +69,7 @@ func genC19(r *Rand, idx int, strict bool) Case {
 		oks = append(oks, k)
 	}
 	rates := []float64{float64(c.GlobalRequestsPerSecond), float64(c.PerIPRequestsPerSecond), float64(c.PerConnectionRequestsPerSecond)}
-	n := 20 + r.Intn(70)
+	n := 15 + r.Intn(55)
 	var evs []rlEvent
 	var now int64
 	abPct := PickInt(r, 50, 70, 85)
@@ -89,7 +89,7 @@ func genC19(r *Rand, idx int, strict bool) Case {
 		now += d
 		if nAb > 0 && r.Intn(100) < abPct {
 			a := uint64(r.Intn(nAb))
-			k := 1 + r.Intn(6) // a volley
+			k := 1 + r.Intn(5) // a volley
 			for j := 0; j < k; j++ {
 				dd := d
 				if j > 0 {
